@@ -126,7 +126,9 @@ def _serialize_region_fits(region):
         if param in ('center', 'vertices'):
             x, y = value.xy
         elif param == 'angle':
-            rotang = value
+            # FITS regions give ROTANG in degrees (some angular units,
+            # e.g. hourangle, cannot be written as a FITS unit at all)
+            rotang = value.to(u.deg)
         else:
             # ellipse region is defined by full axis lengths, but
             # FITS regions file uses semi-axis lengths
